@@ -9,6 +9,7 @@ import Wx.Driver.Flags
 import Wx.Driver.Throttle
 import Wx.Driver.Reconf
 import Wx.Driver.FsReal
+import Wx.Driver.Kbd
 /-! one line in, one line out; `wxdriver <stream> [none|all]` -/
 
 partial def loop (f : String → String) (h : IO.FS.Stream) : IO Unit := do
@@ -30,6 +31,7 @@ def main (args : List String) : IO UInt32 := do
   | "pure" => loop Wx.Driver.Pure.handleLine stdin; return 0
   | "job" => loop (Wx.Driver.Job.handleLine (Wx.Driver.Job.cfgOf cfg)) stdin; return 0
   | "fsreal" => loop Wx.Driver.FsReal.handleLine stdin; return 0
+  | "kbd" => loop Wx.Driver.Kbd.handleLine stdin; return 0
   | "reconf" => loop Wx.Driver.Reconf.handleLine stdin; return 0
   | "jobf" => loop (Wx.Driver.Job.handleLineF (Wx.Driver.Job.cfgOf cfg)) stdin; return 0
   | "fs" => loop (Wx.Driver.Fs.handleLine (if cfg == "all" then (⟨true, true⟩ : Fw.Fixes) else {})) stdin; return 0
